@@ -16,7 +16,7 @@
 //        -> ok fitv <k> <v>*k
 //   gac <ptype> <penalty> <fast 0|1> <ga|de> <value>         (constrained_evaluator around ga_evaluator)
 //        -> ok fitv <k> <v>*k
-//   conp <ptype> <penalty> <mae|…> <fast> <prog> <n> rows…   (constrained_evaluator, penalty function of
+//   conp <ptype> <penalty> <mae|count> <fast> <prog> <n> rows…  (individuals only; constrained_evaluator, penalty function of
 //        return type <ptype>: d double lambda, fn penalty_func_t (std::function), fl float, i int,
 //        u unsigned, l long long, ul std::size_t, b bool; <penalty> = bit pattern (d, fn, fl) or a decimal integer)
 //        -> ok fitv <k> <v>*k outs … diff …
@@ -191,11 +191,22 @@ std::string run_reg(const T &prg, dataframe &d, bool fast, const pen_spec *pen)
   std::string res;
   if (pen)
   {
-    res = with_penalty<T>(*pen, [&](auto pf) {
+    auto run = [&](auto pf) {
       constrained_evaluator<T, EVA, decltype(pf)> ce(EVA(d), pf);
       evaluator<T> &base(ce);                     // virtual dispatch, as the search classes do
       return showfitv(fast ? base.fast(prg) : base(prg));
-    });
+    };
+    if (pen->type == "d")
+    {
+      const double v(pen->dv);
+      res = run([v](const T &) { return v; });
+    }
+    else if constexpr (std::is_same_v<EVA, mae_evaluator<i_mep>> || std::is_same_v<EVA, count_evaluator<i_mep>>)
+      // the other return types of the penalty function: the base evaluator is immaterial, two are
+      // instantiated (compile time)
+      res = with_penalty<T>(*pen, run);
+    else
+      return "bad-op";
     if (res == "bad-op") return res;
   }
   else
